@@ -59,7 +59,11 @@ def declare(E):
                ensures={"buffered_writes_went_out_before_the_size_was_changed":
                         "len(self._wbuffer.getvalue()) == 0 and ghost('requests_at_flush') == old(ghost('requests'))"
                         " and ghost('requests') == old(ghost('requests')) + 1",
-                        "no_read_ahead_from_before_the_change_is_kept": "len(self._rbuffer) == 0 and self._realpos == self._pos"},
+                        "no_read_ahead_from_before_the_change_is_kept": "len(self._rbuffer) == 0 and self._realpos == self._pos",
+                        # a file opened for appending tracks where its end is (writes land there and move the position
+                        # there): after the size was changed the end is the new size
+                        "in_append_mode_the_tracked_end_of_file_is_the_new_size":
+                            "implies((self._flags // 4) % 2 == 1, self._size == size)"},
                returns="none", raises=dict(RA))
     E.contract(B + "flush", returns="none", ghost={"requests_at_flush": "ghost('requests')"},
                ensures=["len(self._wbuffer.getvalue()) == 0", "self._wbuffer.tell() == 0",
